@@ -256,6 +256,94 @@ macro_rules! c13_drive_plain {
 }
 pub(crate) use {c13_drive_meta, c13_drive_plain};
 
+// ---------------------------------------------------------------- sinks that accept only part of a buffer per call
+
+/// a sink whose `write` accepts at most `cap` (>= 1) bytes per call, as `io::Write` allows; it accumulates what it
+/// accepted: number of bytes, the bytes in order (first three), number of calls
+pub struct ShortSink { pub cap: AtomicUsize, pub total: AtomicUsize, pub acc: AtomicU32, pub calls: AtomicUsize, pub mwf: AtomicUsize }
+impl ShortSink {
+    pub const fn new() -> Self { ShortSink { cap: AtomicUsize::new(3), total: AtomicUsize::new(0), acc: AtomicU32::new(0), calls: AtomicUsize::new(0), mwf: AtomicUsize::new(0) } }
+}
+pub static SS0: ShortSink = ShortSink::new();
+pub static SS1: ShortSink = ShortSink::new();
+pub struct MkS(pub &'static ShortSink);
+pub struct WrS(pub &'static ShortSink);
+impl<'a> MakeWriter<'a> for MkS {
+    type Writer = WrS;
+    fn make_writer(&'a self) -> WrS { WrS(self.0) }
+    fn make_writer_for(&'a self, _: &Metadata<'_>) -> WrS { bump(&self.0.mwf); WrS(self.0) }
+}
+impl io::Write for WrS {
+    fn write(&mut self, buf: &[u8]) -> io::Result<usize> {
+        let s = self.0;
+        let cap = s.cap.load(Ordering::Relaxed);
+        let k = if buf.len() < cap { buf.len() } else { cap };
+        let mut i = 0;
+        while i < k {
+            let t = ld(&s.total);
+            if t < 3 { s.acc.store(s.acc.load(Ordering::Relaxed) | ((buf[i] as u32) << (8 * (2 - t))), Ordering::Relaxed); }
+            s.total.store(t + 1, Ordering::Relaxed);
+            i += 1;
+        }
+        bump(&s.calls);
+        Ok(k)
+    }
+    fn flush(&mut self) -> io::Result<()> { Ok(()) }
+}
+fn pack3(buf: &[u8]) -> u32 {
+    let n = buf.len();
+    let b = |i: usize| if i < n { buf[i] as u32 } else { 0 };
+    (b(0) << 16) | (b(1) << 8) | b(2)
+}
+fn any_cap() -> usize { let c: usize = kani::any(); kani::assume(c >= 1 && c <= 3); c }
+
+/// `write_all` on a tee of two sinks that accept only part of a buffer per call: BOTH sinks end up with the whole
+/// record, in order (each side must be driven by its own write_all; `Tee::write`'s max(a, b) is not enough)
+#[kani::proof]
+#[kani::unwind(5)]
+fn c13_short_writes_tee() {
+    let (c0, c1) = (any_cap(), any_cap());
+    SS0.cap.store(c0, Ordering::Relaxed);
+    SS1.cap.store(c1, Ordering::Relaxed);
+    let lr = any_level_rank();
+    let meta = ev_meta(lr);
+    let (b, n) = any_buf();
+    let mw = MkS(&SS0).and(MkS(&SS1));
+    {
+        let mut w = mw.make_writer_for(meta);
+        assert!(io::Write::write_all(&mut w, &b[..n]).is_ok());
+    }
+    assert!(ld(&SS0.mwf) == 1 && ld(&SS1.mwf) == 1);
+    assert!(ld(&SS0.total) == n && ld(&SS1.total) == n);
+    assert!(SS0.acc.load(Ordering::Relaxed) == pack3(&b[..n]));
+    assert!(SS1.acc.load(Ordering::Relaxed) == pack3(&b[..n]));
+    kani::cover!(c0 == 1 && c1 == 3 && n == 3);
+    kani::cover!(c0 == 3 && c1 == 1 && n == 2);
+}
+
+/// the same through a level gate with fall-back: the selected sink receives the whole record
+#[kani::proof]
+#[kani::unwind(5)]
+fn c13_short_writes_gate_or_else() {
+    let (c0, c1) = (any_cap(), any_cap());
+    SS0.cap.store(c0, Ordering::Relaxed);
+    SS1.cap.store(c1, Ordering::Relaxed);
+    let (t, lr) = (any_level_rank(), any_level_rank());
+    let meta = ev_meta(lr);
+    let (b, n) = any_buf();
+    let mw = MkS(&SS0).with_max_level(level(t)).or_else(MkS(&SS1));
+    {
+        let mut w = mw.make_writer_for(meta);
+        assert!(io::Write::write_all(&mut w, &b[..n]).is_ok());
+    }
+    let first = lr <= t;
+    assert!(ld(&SS0.total) == if first { n } else { 0 });
+    assert!(ld(&SS1.total) == if first { 0 } else { n });
+    if first { assert!(SS0.acc.load(Ordering::Relaxed) == pack3(&b[..n])); } else { assert!(SS1.acc.load(Ordering::Relaxed) == pack3(&b[..n])); }
+    kani::cover!(first && c0 == 1 && n == 3);
+    kani::cover!(!first && c1 == 2 && n == 3);
+}
+
 /// vacuity twin for the algebra group
 #[kani::proof]
 #[kani::unwind(2)]
